@@ -7,7 +7,9 @@ from ..e2e import HEADER, CASE_TYPE, CHECK, MODEL_VIEW, SHARD, CASE_TIMEOUT, obs
 ID = "C12"
 THEOREMS = ["C12_config", "C12_sfc_is_ips", "C12_sfc_defined", "C12_copier", "C12_symfile",
             "C12_oracle_sound", "C12_file_matches", "C12_model_satisfies_oracles",
-            "C12_defines_are_constants", "C12_define_literal", "C12_cli_defines"]
+            "C12_defines_are_constants", "C12_define_literal", "C12_cli_defines",
+            "TextLift_defines"]
+PROOF_HEADER = "From A816 Require Import Properties.C12 Properties.TextLift."
 RULE = ("the option lattice format {ips, sfc} x mapping {default, low, low2, high} x copier header {off, on} x -D defines "
         "{none, one, several} x generated programs valid under the mapping (offsets kept below 64 KiB so that flat images "
         "stay small): Program.assemble / assemble_as_patch on files for every point, the x816 command line in a subprocess "
@@ -159,7 +161,7 @@ def cases(ctx):
         src = "*=0x008000\n" + "".join(f".dw {n}\n" for n in names) + (f".if {names[0]} {{\n.db 1\n}}\n" if ok else "")
         out.append({"kind": "cli-define-expressions", "rom": "low", "mapping": "low", "format": "ips", "copier": False,
                     "defines": dict(vals), "cli_defines": dict(texts), "api": ok, "cli": True, "src": src,
-                    "spec": {"t": "c12" if ok else "none"}})
+                    "spec": {"t": "c12"} if ok else {"t": "c14", "must_fail": True}})   # a malformed -D must fail the command line
     # -D with an expression value on the command line
     out.append({"kind": "cli-define-expression", "rom": "low", "mapping": "low", "format": "ips", "copier": False,
                 "defines": {"FOO": 0x12}, "cli_defines": {"FOO": "0x10+2"}, "api": True, "cli": True,
